@@ -112,6 +112,15 @@ def grammar_case(fggs, rng, tier, seed, index, viols, obs):
         g, info = G.build_fgg(fggs, spec, 'real', wdtype, explicit_ids={'explicit': True, 'implicit': False, 'mixed': 'mixed'}[idmode],
                               rule_order=order, domain_kind=kind, domain_values=domvals, weight_builder=builder,
                               id_namer=G.odd_id_namer if odd_ids else None)
+        const = None
+        if unused and index % 2 == 0 and hasattr(env.mod('fggs.factors'), 'ConstantFactor'):
+            # the other factor class: a declared terminal (used by no rule) interpreted by a ConstantFactor
+            lab_c = rng.choice(sorted(spec['domains']))
+            el_c = fggs.EdgeLabel('t_const', [info['nl'][lab_c]], is_terminal=True)
+            g.add_edge_label(el_c)
+            const = env.mod('fggs.factors').ConstantFactor([g.domains[info['nl'][lab_c].name]], 2.5)
+            g.add_factor(el_c, const)
+            info_['constant_factor'] = True
         out = C.call(F.fgg_to_json, g)
         obs['to_json_calls'] += 1
         if not out['ok']:
@@ -172,6 +181,12 @@ def grammar_case(fggs, rng, tier, seed, index, viols, obs):
             V('roundtrip:factor-names', f'{sorted(g.factors)} vs {sorted(g2.factors)}')
         else:
             for k, f in g.factors.items():
+                if const is not None and f is const:
+                    obs['constant_factors_compared'] = obs.get('constant_factors_compared', 0) + 1
+                    f2 = g2.factors[k]
+                    if type(f2).__name__ != 'ConstantFactor' or not (f2 == const) or getattr(f2, 'weight', None) != 2.5:
+                        V('roundtrip:constant-factor', f'ConstantFactor(weight 2.5) came back as {type(f2).__name__} with weight {getattr(f2, "weight", None)!r}')
+                    continue
                 w1 = A.densify_pt(f.weights).to(torch.get_default_dtype())
                 w2 = A.densify_pt(g2.factors[k].weights)
                 obs['weights_compared'] += 1
